@@ -51,25 +51,47 @@ def run(ctx: Ctx) -> None:
         import torch._inductor.config as icfg
         icfg.fallback_random = True
 
-    def rounding_close(a: torch.Tensor, b: torch.Tensor, ref: Any, dt: torch.dtype) -> bool:
-        """`a` (compiled) agrees with `b` (eager) to float rounding: either directly within the dtype's tolerance, or - for
-        ill-conditioned results such as the input gradient of a normalisation, where fused kernels legitimately round
-        differently - its error against the float64 evaluation of the same computation is no more than 3x eager's own."""
+    def perturbed(t: torch.Tensor, eps: float, seed: int) -> torch.Tensor:
+        g = torch.Generator().manual_seed(seed)
+        sgn = torch.randint(0, 2, t.shape, generator=g).to(t.dtype) * 2 - 1
+        return t * (1 + eps * sgn)
+
+    def rounding_close(a: torch.Tensor, b: torch.Tensor, ref: Any, refp: Any, dt: torch.dtype, f32_internal: bool = False) -> bool:
+        """`a` (compiled) agrees with `b` (eager) to float rounding.  Directly within the dtype's tolerance; or - for
+        ill-conditioned results (e.g. the input gradient of a normalisation), where fused kernels legitimately round
+        differently - judged against the float64 evaluation `ref` of the same computation: a's error is at most 3x eager's
+        own error, plus the tolerance, plus 8x the change `|refp - ref|` that rounding the *inputs* to the dtype's
+        precision already causes (a cancellation-aware scale).  In float64 the second route exists only for callables
+        that compute internally in float32 (the library's rms), with float32 precision as the yardstick."""
         if close(a, b, dt):
             return True
-        if ref is None or a.shape != b.shape or a.dtype != b.dtype or ref.shape != a.shape:
+        if a.shape != b.shape or a.dtype != b.dtype:
+            return False
+        if dt == torch.float64:
+            if not f32_internal or refp is None:
+                return False
+            delta = float((refp.double() - b.double()).abs().max())
+            scale = max(float(b.double().abs().max()), 1e-30)
+            return float((a.double() - b.double()).abs().max()) <= TOL["torch.float32"] * scale + 8 * delta
+        if ref is None or ref.shape != a.shape:
             return False
         ea = float((a.double() - ref.double()).abs().max())
         eb = float((b.double() - ref.double()).abs().max())
         scale = max(float(ref.double().abs().max()), 1e-30)
-        return ea <= 3 * eb + TOL[str(dt)] * scale
+        delta = float((refp.double() - ref.double()).abs().max()) if refp is not None and refp.shape == ref.shape else 0.0
+        return ea <= 3 * eb + TOL[str(dt)] * scale + 8 * delta
 
-    def run_fn(fn: Callable, tensors: Dict[str, Any], diff: List[str], seed: int, up_dtype: Any = None):
+    def run_fn(fn: Callable, tensors: Dict[str, Any], diff: List[str], seed: int, up_dtype: Any = None, eps: float = 0.0):
+        if eps:
+            tensors = {k: (perturbed(v, eps, 17 + j) if torch.is_tensor(v) and v.is_floating_point() else v)
+                       for j, (k, v) in enumerate(tensors.items())}
         t = {k: (v.detach().clone().requires_grad_(True) if (k in diff) else v) for k, v in tensors.items()}
         torch.manual_seed(seed)
         y = fn(t)
         g = torch.Generator().manual_seed(seed + 1)
         up = torch.randn(y.shape, generator=g, dtype=torch.float64).to(up_dtype or y.dtype).to(y.dtype)
+        if eps:
+            up = perturbed(up, eps, 16)
         grads = torch.autograd.grad(y, [t[n] for n in diff], up, allow_unused=True) if diff else []
         return y.detach(), [None if x is None else x.detach() for x in grads]
 
@@ -98,20 +120,25 @@ def run(ctx: Ctx) -> None:
                     got = run_fn(cf, base, case.diff, 5)
                 if got is None:
                     continue
-                ref: Any = (None, [None] * len(case.diff))
+                none = (None, [None] * len(case.diff))
+                ref: Any = none
+                refp: Any = none
                 random_op = (op == "dropout" and case.cfg.get("training") and case.cfg.get("p", 0) > 0) or \
                     (case.cfg.get("dropout_p", 0) or 0) > 0
-                if dt != torch.float64 and not random_op:
+                f32i = op == "rms_norm"
+                if not random_op and (dt != torch.float64 or f32i):
                     try:
-                        ref = run_fn(f, {k: (v.double() if torch.is_tensor(v) and v.is_floating_point() else v)
-                                         for k, v in base.items()}, case.diff, 5, up_dtype=dt)
+                        b64 = {k: (v.double() if torch.is_tensor(v) and v.is_floating_point() else v) for k, v in base.items()}
+                        eps_ = float(torch.finfo(torch.float32 if dt == torch.float64 else dt).eps)
+                        ref = run_fn(f, b64, case.diff, 5, up_dtype=dt)
+                        refp = run_fn(f, b64, case.diff, 5, up_dtype=dt, eps=eps_)
                     except Exception:
-                        ref = (None, [None] * len(case.diff))
-                if not rounding_close(got[0], want[0], ref[0], dt):
+                        ref, refp = none, none
+                if not rounding_close(got[0], want[0], ref[0], refp[0], dt, f32i):
                     ctx.violation(f"C20:{op}:output", "compiled output differs from eager", key,
                                   float((got[0].double() - want[0].double()).abs().max()))
-                for n, a, b, r64 in zip(case.diff, got[1], want[1], ref[1]):
-                    if (a is None) != (b is None) or (a is not None and not rounding_close(a, b, r64, dt)):
+                for n, a, b, r64, r64p in zip(case.diff, got[1], want[1], ref[1], refp[1]):
+                    if (a is None) != (b is None) or (a is not None and not rounding_close(a, b, r64, r64p, dt, f32i)):
                         ctx.violation(f"C20:{op}:grad:{n}", "compiled gradient differs from eager", {**key, "wrt": n},
                                       None if a is None or b is None else float((a.double() - b.double()).abs().max()))
 
@@ -145,35 +172,47 @@ def run(ctx: Ctx) -> None:
         return m.to(dt)
 
     def compare_module(name: str, m: nn.Module, x: torch.Tensor, dt: torch.dtype, key: Dict[str, Any]) -> None:
-        def fb(mod, seed=7, x=x):
+        def fb(mod, seed=7, x=x, eps=0.0):
             for p in mod.parameters():
                 p.grad = None
+            if eps:
+                with torch.no_grad():
+                    for j, p in enumerate(mod.parameters()):
+                        p.copy_(perturbed(p, eps, 40 + j))
+                x = perturbed(x, eps, 39) if x.is_floating_point() else x
             xi = x.clone().requires_grad_(True) if x.is_floating_point() else x
             torch.manual_seed(seed)
             y = mod(xi)
             g = torch.Generator().manual_seed(seed)
-            y.backward(torch.randn(y.shape, generator=g, dtype=torch.float64).to(dt).to(y.dtype))
+            up = torch.randn(y.shape, generator=g, dtype=torch.float64).to(dt).to(y.dtype)
+            y.backward(perturbed(up, eps, 38) if eps else up)
             return y.detach(), ([xi.grad.detach()] if x.is_floating_point() else []) + \
                 [None if p.grad is None else p.grad.detach().clone() for p in mod.parameters()]
 
         want = fb(m)
         ref: Any = None
-        if dt != torch.float64:
+        refp: Any = None
+        f32i = any(isinstance(sm, uu.RMSNorm) for sm in m.modules())
+        if dt != torch.float64 or f32i:
             try:
-                ref = fb(copy.deepcopy(m).double(), x=x.double() if x.is_floating_point() else x)
+                x64 = x.double() if x.is_floating_point() else x
+                eps_ = float(torch.finfo(torch.float32 if dt == torch.float64 else dt).eps)
+                ref = fb(copy.deepcopy(m).double(), x=x64)
+                refp = fb(copy.deepcopy(m).double(), x=x64, eps=eps_)
             except Exception:
-                ref = None
+                ref = refp = None
         got = None
         with ctx.guard(f"C20:{name}:compile", key):
             torch._dynamo.reset()
             cm = torch.compile(copy.deepcopy(m), backend=backend)
             got = fb(cm)
         if got is not None:
-            if not rounding_close(got[0], want[0], ref[0] if ref else None, dt):
+            if not rounding_close(got[0], want[0], ref[0] if ref else None, refp[0] if refp else None, dt, f32i):
                 ctx.violation(f"C20:{name}:output", "compiled module output differs from eager", key)
             for j, (a, b) in enumerate(zip(got[1], want[1])):
                 r64 = ref[1][j] if ref and j < len(ref[1]) else None
-                if (a is None) != (b is None) or (a is not None and not rounding_close(a, b, r64, dt)):
+                r64p = refp[1][j] if refp and j < len(refp[1]) else None
+                if (a is None) != (b is None) or (a is not None and not rounding_close(a, b, r64, r64p, dt, f32i)):
                     ctx.violation(f"C20:{name}:grad", "compiled module gradient differs from eager", key)
                     break
         # plain fx symbolic tracing: forward values
